@@ -15,7 +15,7 @@ import (
 
 const ruleC10 = "single-comparison filters $.list[?(L op R)] (six operators and regex; operands literal / '@'-path / '$'-path in both orders) over 1..7 members holding every JSON type at the operand path (numbers as integer, fraction, exponent, negative zero and — against literals — alternative spellings such as 1.0, 1e0, 10e-1; strings that look like numbers; bool; null; object; array; missing), each document decoded with and without UseNumber. " +
 	"Oracle: (1) SPEC per member (type-strict, missing/mistyped => no match, numbers by value; both-absent == between two paths accepted either way); (2) the selection under json.Number equals the selection under float64; (3) swapping the operands while mirroring the operator selects the same members, in both decodings. " +
-	"Non-trivial: members of >=3 JSON types at the operand path and >=1 member matches. Distinct = distinct (filter, document)."
+	"Non-trivial: members of >=3 JSON types at the operand path and >=1 member matches. Distinct = distinct (filter, document). Every document that has an empty array/object is evaluated once more with nil slices / nil maps in their place and must select the same members."
 
 var c10NumShort = []string{"0", "1", "-1", "1.5", "100", "2", "1e-07", "1e+21", "-0.5", "123456789"}
 var c10NumAlt = []string{"1e999", "-1e999", "18446744073709551615", "9223372036854775808", "-9223372036854775809", "123456789012345678901234567890", "9007199254740993", "1.0", "1e0", "10e-1", "1E2", "1e2", "100.0", "-0", "0.0", "0e5", "1.50", "15e-1", "-1.0", "2.0"}
